@@ -13,9 +13,11 @@ def run(res, a):
     # mi_abandoned_visit_blocks: blocks left behind by terminated (virtual) threads, arena and OS-list segments
     import conc
     conc.run_conc(res, "C12", a.seed, a.tier, envs=[None, {"VERIF_NO_ARENA": "1"}, {"VERIF_BIG_ARENA": "1"}], nseeds_quick=16)
+    # ... and after every event of every ordering of thread terminations (real pthread exit) and frees / adoptions (harness/t_exitorder.c)
+    conc.run_exit_orders(res, "C12", a.seed, a.tier, {"abandoned-visit"})
     res.cov["rule"] = ("API traces (generators of tools/gen_trace.py: page fill/free cycles with hole patterns, class boundaries, several heaps, "
                        "large/huge single-block pages) on the real allocator; at every W op mi_heap_visit_blocks is compared with the shadow table "
                        "(every live block once, enclosing range, no freed block, area.used, early stop) and, per page, the visited block indices with "
                        "the Coq model's page_visit_blocks on the page state dumped before the walk. distinct = distinct traces")
     res.assumptions += ["single-threaded histories without pending cross-thread frees (remote lists are covered by the model theorems and by C08's checks)",
-                        "mi_abandoned_visit_blocks is exercised at quiescence of the scheduler harness (mode exit, option visit_abandoned=1) for arena and OS-list segments"]
+                        "mi_abandoned_visit_blocks is exercised at quiescence of the scheduler harness (mode exit, option visit_abandoned=1) and after every event of the exit/adoption orders of harness/t_exitorder.c, for arena and OS-list segments; it has no Coq statement"]
